@@ -209,3 +209,62 @@ def merge_cov(a, b):
         ob[k] = max(ob.get(k, 0), v) if k == "blk_peak" else ob.get(k, 0) + v
     out["observed"] = ob
     return out
+
+
+class HGCfg:
+    def __init__(self, elem, cmp_, under, alloc="basic", std="c++17", compiler="g++"):
+        self.elem, self.cmp, self.under, self.alloc, self.std, self.compiler = elem, cmp_, under, alloc, std, compiler
+        self.name = "hg_%s_%s_%s_%s_%s_%s" % (elem, cmp_, under, alloc, std.replace("c++", "cxx"), "gcc" if compiler == "g++" else "clang")
+
+    def source(self):
+        f = FSCfg(self.elem, self.cmp, "less", self.under, self.alloc)
+        src = f.source().replace('"flatset_history_main.hpp"', '"hint_grid_main.hpp"').replace(f.name, self.name)
+        return src
+
+    def spec(self):
+        return {"name": self.name, "source": self.source(), "std": self.std, "compiler": self.compiler, "extra": ["-DAMC_NONSTD_FEATURES"]}
+
+
+HG_QUICK = [
+    HGCfg("TC4", "less", "v", "amc"),
+    HGCfg("NTR", "greater", "s3", "basic"),
+    HGCfg("TR", "coarse", "f16"),
+    HGCfg("TC4", "stateful", "std", "std"),
+    HGCfg("NTR", "coarse", "v", "exact"),
+    HGCfg("TR", "less", "s3", "realloc"),
+    HGCfg("TC8", "greater", "f16"),
+    HGCfg("NTR", "stateful", "std", "exact"),
+]
+HG_THOROUGH = [
+    HGCfg("TR", "stateful", "v", "basic"),
+    HGCfg("TC4", "coarse", "s3", "amc"),
+    HGCfg("NTR", "less", "f16"),
+    HGCfg("TR", "greater", "std", "std"),
+    HGCfg("NTR", "coarse", "s3", "basic", std="c++20"),
+    HGCfg("TC4", "less", "v", "amc", compiler="clang++-14"),
+]
+
+
+class CostCfg(HGCfg):
+    def __init__(self, elem, cmp_, under, alloc="amc", std="c++17", compiler="g++"):
+        HGCfg.__init__(self, elem, cmp_, under, alloc, std, compiler)
+        self.name = "cost_" + self.name[3:]
+
+    def source(self):
+        f = FSCfg(self.elem, self.cmp, "less", self.under, self.alloc)
+        maxn = 100 if self.under.startswith("f") else 1000000
+        return ("#define VF_MAX_N %d\n" % maxn) + f.source().replace('"flatset_history_main.hpp"', '"set_cost_main.hpp"').replace(f.name, self.name)
+
+
+COST_QUICK = [
+    CostCfg("TC8", "less", "v"),
+    CostCfg("NTR", "greater", "s4", "basic"),
+    CostCfg("TR", "coarse", "std", "std"),
+    CostCfg("TC8", "stateful", "f128"),
+]
+COST_THOROUGH = [
+    CostCfg("TR", "less", "s4", "realloc"),
+    CostCfg("NTR", "coarse", "v", "exact"),
+    CostCfg("TC12", "greater", "std", "amc"),
+    CostCfg("TC8", "less", "v", compiler="clang++-14"),
+]
